@@ -238,6 +238,22 @@ def pmap(fn: Callable, items: Iterable, *, procs: int = 16, chunk: int = 64, lim
     return out
 
 
+def chunked(size=4000):
+    """judge large batches in several TLC runs (a trace file of hundreds of MB is slow to deserialise)"""
+    def wrap(fn):
+        def inner(cases, *a, **k):
+            if len(cases) <= size:
+                return fn(cases, *a, **k)
+            out = {}
+            for off in range(0, len(cases), size):
+                part = fn(cases[off:off + size], *a, **k)
+                out.update({off + i: v for i, v in part.items()})
+            return out
+        inner.__name__ = fn.__name__
+        return inner
+    return wrap
+
+
 def seed_from_env(default: int = 20261004) -> int:
     try:
         return int(os.environ.get("VERIF_SEED", default))
